@@ -51,6 +51,26 @@ def run(ctx):
     r = vlib.tlc_expect_violation("MC_ReloadId", "MC_ReloadId_neg.cfg", workers=2)
     ctx.add_tlc("MC_ReloadId_neg: load-then-store update (must fail)", r, negative=True)
 
+    # 1b. unbounded ids / any number of threads: an inductive invariant discharged by Apalache (extra depth;
+    #     no verdict depends on it: a tool failure here is reported in the evidence only)
+    import shutil, subprocess
+    apa = os.path.join(vlib.SPEC, "apalache")
+    res = {}
+    for name, args, want in [("init", ["--init=Init", "--inv=IndInv", "--length=0"], "NoError"),
+                             ("step", ["--init=IndInit", "--inv=IndInv", "--length=1"], "NoError"),
+                             ("vacuity guard", ["--init=IndInit", "--inv=Bogus", "--length=1"], "Error")]:
+        try:
+            p = subprocess.run(["apalache-mc", "check"] + args + ["--out-dir=" + os.path.join(vlib.WORK, "apalache"), "ReloadIdInd.tla"], cwd=apa,
+                               stdout=subprocess.PIPE, stderr=subprocess.STDOUT, text=True, timeout=300)
+            out = "NoError" if "The outcome is: NoError" in p.stdout else ("Error" if "The outcome is: Error" in p.stdout else "tool-failure")
+        except Exception as ex:  # pragma: no cover
+            out = f"tool-failure: {ex}"
+        res[name] = out
+        if out == "Error" and want == "NoError":
+            ctx.violation("C18/apalache-" + name.replace(" ", "-"), "the inductive invariant of ReloadIdInd.tla is refuted", {"stdout": p.stdout[-3000:]})
+    shutil.rmtree(os.path.join(vlib.WORK, "apalache"), ignore_errors=True)
+    ctx.cov["apalache_inductive_invariant"] = res
+
     # 2. spec -> code
     n, maxid = (4, 3) if thorough else (3, 3)
     r, cases = gen_cases(n, maxid, ctx)
